@@ -484,7 +484,9 @@ class JordanCurve:
                 i += 1
         shift = 0
         for ind in range(len(self.segments)):
-            new_nodes = tuple(node for index, node in pairs if index == ind)
+            new_nodes = tuple(
+                sorted(set(node for index, node in pairs if index == ind))
+            )
             if len(new_nodes) == 0:
                 continue
             self.__split_segment(ind + shift, new_nodes)
